@@ -281,6 +281,14 @@ type C16J struct {
 	P *C16J             `json:"p,omitempty"`
 }
 
+// C16Named names its values itself (cqrs.NamedStruct): the name depends on the value.
+type C16Named struct {
+	Kind string
+	X    int
+}
+
+func (n *C16Named) Name() string { return n.Kind }
+
 func c16Codecs(r *tr.Run, rng *rand.Rand, nm int) int {
 	n := 0
 	protoUsed := map[string]proto.Message{} // by type: a value that already went through an earlier round
@@ -514,6 +522,17 @@ func c16Codecs(r *tr.Run, rng *rand.Rand, nm int) int {
 					back := &structpb.Struct{}
 					ok := err == nil && mk.Unmarshal(msg, back) == nil && proto.Equal(nested, back)
 					r.Emit("rt", "kind", fmt.Sprintf("cqrs-proto-remarshal/%T", mk), "orig", "v", "back", map[bool]string{true: "v", false: "different"}[ok], "nameok", err == nil && mk.NameFromMessage(msg) == mk.Name(nested))
+					n++
+				}
+				{
+					// a type that names its values itself (NamedStruct): the name in the message is THIS value's name
+					nv := &C16Named{Kind: "kind-" + s, X: round}
+					nm2 := cqrs.JSONMarshaler{GenerateName: cqrs.NamedStruct(cqrs.StructName)}
+					msg, err := nm2.Marshal(nv)
+					back := &C16Named{}
+					ok := err == nil && nm2.Unmarshal(msg, back) == nil && *back == *nv
+					r.Emit("rt", "kind", "cqrs-json-named", "orig", "v", "back", map[bool]string{true: "v", false: "different"}[ok],
+						"nameok", err == nil && nm2.NameFromMessage(msg) == nv.Name() && nm2.Name(nv) == nv.Name())
 					n++
 				}
 				gv := &gogotypes.StringValue{Value: s}
